@@ -37,6 +37,7 @@ RULE = ("Hypothesis draws a layer kind (Lattice, LatticeConstraints, "
         "listed-invalid configuration, or reaches projection + evaluation in "
         "(b), or compares two different spellings in (c); distinct by SHA-1.")
 NT_FLOOR = 0.6
+FUZZ = {"thorough": 30000}   # atheris executions per shard (thorough tier)
 BUDGET = {"quick": 900, "thorough": 10000}
 TECHNIQUE = ("property-based testing (Hypothesis) + coverage-guided fuzzing "
              "(atheris, thorough tier) of constructor arguments: "
